@@ -109,23 +109,29 @@ RegexApply(r, s) ==
 
 PrMenu == {<<>>, <<"/", "b", "/">>, <<"/">>}
 
-(* what the matched route "matched": the prefix of a prefix rule, the whole path of a path rule *)
-Matched(c) == IF c.rule = "prefix" THEN PrefixA ELSE c.path
+(* a path rule matches the whole path without regard to case: ci = the request spells the path in upper case *)
+Up(t) == CASE t = "a" -> "A" [] t = "x" -> "X" [] t = "y" -> "Y" [] t = "z" -> "Z" [] OTHER -> t
+ReqPath(c) == IF c.ci THEN [i \in DOMAIN c.path |-> Up(c.path[i])] ELSE c.path
+(* what the matched route "matched" of the request path: the prefix of a prefix rule, the whole path of a path rule *)
+MatchedLen(c) == IF c.rule = "prefix" THEN Len(PrefixA) ELSE Len(c.path)
 
-(* Sem: prefix_rewrite replaces the matched prefix; regex_rewrite applies only when no prefix_rewrite is set *)
-SemPath(c) == IF c.pr # <<>>
-              THEN (IF IsPrefix(Matched(c), c.path) THEN c.pr \o Rest(Matched(c), c.path) ELSE c.path)
-              ELSE RegexApply(c.rr, c.path)
-(* Impl: base_rule.go finalizePathHeader *)
+(* Sem: prefix_rewrite replaces what the rule matched; regex_rewrite applies only when no prefix_rewrite is set *)
+SemPath(c) == IF c.pr # <<>> THEN c.pr \o SubSeq(ReqPath(c), MatchedLen(c) + 1, Len(c.path))
+              ELSE RegexApply(c.rr, ReqPath(c))
+(* Impl: base_rule.go finalizePathHeader compares the request path with the configured matcher *)
+Configured(c) == IF c.rule = "prefix" THEN PrefixA ELSE c.path
+SameFold(p, s) == Len(p) <= Len(s) /\ \A i \in DOMAIN p : Up(p[i]) = Up(s[i])
 ImplPath(c) ==
-  IF c.pr = <<>> /\ c.rr = "none" THEN c.path
-  ELSE IF c.pr # <<>> /\ ~("RegexOverPrefix" \in Defects /\ c.rr # "none")
-       THEN (IF IsPrefix(Matched(c), c.path)
-             THEN (IF "PrefixRewriteKeepsPrefix" \in Defects THEN c.pr \o c.path ELSE c.pr \o Rest(Matched(c), c.path))
-             ELSE c.path)
-       ELSE RegexApply(c.rr, c.path)
+  LET path == ReqPath(c)
+      hit  == IF "RewriteCaseSensitive" \in Defects THEN IsPrefix(Configured(c), path) ELSE SameFold(Configured(c), path)
+  IN IF c.pr = <<>> /\ c.rr = "none" THEN path
+     ELSE IF c.pr # <<>> /\ ~("RegexOverPrefix" \in Defects /\ c.rr # "none")
+          THEN (IF hit
+                THEN (IF "PrefixRewriteKeepsPrefix" \in Defects THEN c.pr \o path ELSE c.pr \o Rest(Configured(c), path))
+                ELSE path)
+          ELSE RegexApply(c.rr, path)
 (* the original path is recorded in x-mosn-original-path exactly when the path was rewritten *)
-SemOrig(c) == IF SemPath(c) # c.path THEN c.path ELSE <<>>
+SemOrig(c) == IF SemPath(c) # ReqPath(c) THEN ReqPath(c) ELSE <<>>
 
 (* host towards an HTTP/1.1 upstream: host_rewrite, else the value of the header named by
    auto_host_rewrite_header (as it stands after the header mutations), else the request's host *)
@@ -146,9 +152,10 @@ ImplHost(c) == LET h == ImplHdr(PathHdrLevels(c), PathHdrIn(c))
                ELSE OrigHost
 
 PathCases == { c \in [rule : {"prefix", "path", "regex"}, pr : PrMenu, rr : RxMenu, hr : {"", "rw.host"},
-                      ahrh : {"", "x-a"}, radd : BOOLEAN, path : Paths, query : {"", "k=v"}, xa : {Absent, "c.host"}] :
+                      ahrh : {"", "x-a"}, radd : BOOLEAN, path : Paths, query : {"", "k=v"}, xa : {Absent, "c.host"}, ci : BOOLEAN] :
                /\ (c.pr # <<>> => c.rule # "regex")        \* prefix_rewrite on a regex rule has no matched prefix to replace
                /\ (c.ahrh = "" => (~c.radd /\ c.xa = Absent))
+               /\ (c.ci => (c.rule = "path" /\ c.query = "" /\ c.hr = "" /\ c.ahrh = ""))
                /\ (~Big => (c.query = "k=v" => c.rr \in {"none", "R1"})) }
 
 (* ------------------------------------------------------------------ redirect and direct response *)
@@ -229,6 +236,7 @@ HdrLevelOrder  == (Family = "hdr" /\ c.hin["x-a"] = "c"
                   => ImplHdr(c.lv, c.hin)["x-a"] = "c,r,v,g"
 PathImplIsSem  == Family = "path" => ImplPath(c) = SemPath(c)
 PrefixWins     == (Family = "path" /\ c.pr # <<>> /\ c.rule = "prefix") => ImplPath(c) = c.pr \o Rest(PrefixA, c.path)
+PathRuleSwapsWholePath == (Family = "path" /\ c.pr # <<>> /\ c.rule = "path") => ImplPath(c) = c.pr
 HostImplIsSem  == Family = "path" => ImplHost(c) = SemHost(c)
 RedirImplIsSem == Family = "redir" => ImplLocation(c) = SemLocation(c) /\ ImplRedirCode(c) = SemRedirCode(c)
 TmoImplIsSem   == Family = "tmo" => ImplTimeout(c) = SemTimeout(c)
